@@ -77,17 +77,24 @@ pub fn move_cell_recreate(&mut self, sheet: u32, target_row: i32, target_column:
     Ok(())
 }
 
-    // the tail of move_cell: the source cell's style is ALWAYS written at the target (a style-0 cell must not inherit the row or
-    // column style of its new position), then the source cell is removed
-pub fn move_cell_tail(&mut self, sheet: u32, source_row: i32, source_column: i32, target_row: i32, target_column: i32, style: i32) -> (r: Result<(), String>)
+    // move_cell from the re-creation on: the source cell's style is ALWAYS written at the target, and AFTER the content was re-entered
+    // (re-entry through set_user_input / set_user_array_formula adjusts the target's style — number formats inferred from the formula,
+    // the row or column style of the new position — so it must not be the last word on the moved cell's style); then the source is removed
+pub fn move_cell_recreate_and_style(&mut self, sheet: u32, source_row: i32, source_column: i32, target_row: i32, target_column: i32, style: i32,
+                                    array: Option<(i32, i32)>, formula_or_value: String) -> (r: Result<(), String>)
+    requires array.is_some() ==> array.unwrap() == (g_arr_w(), g_arr_h())
 {
+    let ghost mut entered: bool = false;
     let ghost mut styled: bool = false;
-//@fragment#2 base/src/actions.rs Model::move_cell `let worksheet = self.workbook.worksheet_mut(sheet)?;` .. `worksheet.remove_cell(source_row, source_column)?;`
-//@after `worksheet.set_cell_style(target_row, target_column, style)?;`
-        proof { styled = true; }
-//@before `worksheet.remove_cell(source_row, source_column)?;`
-        assert(styled);   // the style copy happened on this path
+//@fragment base/src/actions.rs Model::move_cell `if let Some((` .. `remove_cell(source_row, source_column)`
+//@afterstmt? `self.set_user_input(sheet, target_row, target_column, formula_or_value)`
+            proof { entered = true; }
+//@afterstmt? `self.set_user_array_formula(`
+            proof { entered = true; }
+//@afterstmt? `set_cell_style(target_row, target_column, style)`
+        proof { if entered { styled = true; } }
 //@end
+    assert(styled);   // on every path that reaches the end, the saved style was written after the re-entry
     Ok(())
 }
 
